@@ -54,11 +54,27 @@ def replay(fl, FA, clause, hedge, vals, other=None):
     if clause == "involution":
         obs = float(H(H(x)))
         return {"failed": not FA.same(obs, x, rel=1e-9, abs_=1e-12), "expected": float(x), "observed": obs, "call": f"not(not({x!r}))"}
+    if clause == "all":
+        grid = [0.0, 1.0, 0.5, 0.25, 0.75, 2.0 ** -10, 0.5 + 2.0 ** -10, 0.5 + 2.0 ** -12, 0.5 - 2.0 ** -10, 1e-300, 1e-9, 1.0 - 2.0 ** -53, 0.001, 0.0005]
+        for u in grid:
+            for cl in ["formula", "range", "monotone"] + (["very_le_x_le_somewhat"] if hedge in ("Very", "Somewhat") else []):
+                r = replay(fl, FA, cl, hedge, {"x": u, "x2": 0.5})
+                if r.get("failed"):
+                    return r
+            for f, g in INVERSES:
+                if hedge in (f, g):
+                    r = replay(fl, FA, "inverse", f, {"x": u}, other=g)
+                    if r.get("failed"):
+                        return r
+        return replay(fl, FA, "elementwise", hedge, {"x": 0.3, "x2": 0.6})
     if clause == "elementwise":
         arr = np.array([x, x2, 0.0, 0.5, 1.0, 0.25])
+        keep = arr.copy()
         try:
             got = np.asarray(h.hedge(arr), dtype=float)
-            exp = np.array([H(v) for v in arr])
+            if not np.array_equal(arr, keep):
+                return {"failed": True, "expected": "argument array unchanged: " + str(keep.tolist()), "observed": arr.tolist(), "call": f"{hedge}().hedge(array) modified the caller's array"}
+            exp = np.array([H(v) for v in keep])
             ok = got.shape == exp.shape and all(FA.same(u, v) for u, v in zip(got, exp))
             return {"failed": not ok, "expected": exp.tolist(), "observed": got.tolist(), "call": f"{hedge}().hedge(array)"}
         except Exception as ex:  # noqa
